@@ -59,7 +59,7 @@ func TestVerifC14(t *testing.T) {
 	synctest.Test(t, func(t *testing.T) {
 		now := time.Now()
 		headers := c14Headers()
-		verifierOutcomes := []string{"ok", "invalid", "oauth", "other", "nilinfo", "invalid+info", "oauth+info", "other+info"} // +info: the error comes with a (to be ignored) non-nil TokenInfo
+		verifierOutcomes := []string{"ok", "invalid", "oauth", "other", "nilinfo", "invalid+info", "oauth+info", "other+info", "invalid-empty-message", "other-empty-message"} // -empty-message: the error's Error() is the empty string; +info: the error comes with a (to be ignored) non-nil TokenInfo
 		// (scope lists are sets: repeated entries change nothing)
 		required := [][]string{nil, {"a"}, {"a", "b"}, {"a", "a"}}
 		granted := [][]string{nil, {"a"}, {"b"}, {"a", "b"}, {"b", "c", "a"}, {"a", "a"}, {"b", "b", "c"}}
@@ -200,6 +200,10 @@ func c14One(cases *verifx.Cases, idx int, now time.Time, h c14Header, vo string,
 			withErr = info
 		}
 		switch strings.TrimSuffix(vo, "+info") {
+		case "invalid-empty-message":
+			return nil, c14SilentError{ErrInvalidToken}
+		case "other-empty-message":
+			return nil, c14SilentError{nil}
 		case "ok":
 			return info, nil
 		case "invalid":
@@ -326,11 +330,11 @@ func c14One(cases *verifx.Cases, idx int, now time.Time, h c14Header, vo string,
 					fail("verifier-called-on-malformed", "the verifier was called for a malformed credential")
 					return false
 				}
-			case strings.TrimSuffix(vo, "+info") == "invalid":
+			case strings.TrimSuffix(vo, "+info") == "invalid" || vo == "invalid-empty-message":
 				legal = []int{401}
 			case strings.TrimSuffix(vo, "+info") == "oauth":
 				legal = []int{400}
-			case strings.TrimSuffix(vo, "+info") == "other" || vo == "nilinfo":
+			case strings.TrimSuffix(vo, "+info") == "other" || vo == "nilinfo" || vo == "other-empty-message":
 				legal = []int{500}
 			default:
 				if !scopesOK {
@@ -370,3 +374,10 @@ func c14One(cases *verifx.Cases, idx int, now time.Time, h c14Header, vo string,
 	}
 	cases.Record(idx, obs, 1, desc)
 }
+
+// c14SilentError is a verifier error without a message (built, say, from an optional, empty
+// error_description); it may unwrap to one of the sentinel errors.
+type c14SilentError struct{ is error }
+
+func (c14SilentError) Error() string   { return "" }
+func (e c14SilentError) Unwrap() error { return e.is }
